@@ -58,6 +58,7 @@ type vSource struct {
 	maxRead int  // every read returns at most maxRead bytes (0: unlimited)
 	eofWith bool // deliver final bytes together with io.EOF
 	errWith bool // deliver the last bytes before errAt together with the error (else on the next call)
+	badByte bool // errAt is one unreadable byte: reads that do not touch it succeed (seeking readers can get past it)
 	seekErr int  // index of the Seek call that fails (-1: never)
 	seeks   int
 }
@@ -71,7 +72,7 @@ func (s *vSource) Read(p []byte) (int, error) {
 	s.calls++
 	// every comparison against a (possibly symbolic) fault position is decided by forking (vFork), so that
 	// stream positions and read counts stay concrete numbers on every path
-	if s.errAt >= 0 && vFork(s.pos >= s.errAt) {
+	if s.errAt >= 0 && vFork(s.pos >= s.errAt) && (!s.badByte || vFork(s.pos == s.errAt)) {
 		return 0, vErrSource
 	}
 	if vFork(s.pos >= s.limit) {
@@ -81,7 +82,7 @@ func (s *vSource) Read(p []byte) (int, error) {
 		return 0, nil
 	}
 	end := s.limit
-	if s.errAt >= 0 && vFork(s.errAt < end) {
+	if s.errAt >= 0 && vFork(s.errAt < end) && (!s.badByte || vFork(s.errAt > s.pos)) {
 		end = s.errAt
 	}
 	n := int64(len(p))
@@ -252,7 +253,8 @@ func vMakeWorkload(tpl, ln, pn, idv int) *vWorkload {
 	return wl
 }
 
-// vOptions builds writer options. cfg bits (concrete): 1 chunked, 2 crc, 4 xor codec, 8 skipMagic, 16 overrideLibrary.
+// vOptions builds writer options. cfg bits (concrete): 1 chunked, 2 crc, 4 xor codec, 8 skipMagic, 16 overrideLibrary,
+// 32 (with 4) the codec is registered under a 22-byte compression name.
 // skip: -1 = all Skip* flags symbolic; otherwise a concrete bitmask
 // (1 msgidx, 2 stats, 4 repSchemas, 8 repChannels, 16 attIdx, 32 mdIdx, 64 chunkIdx, 128 sumOffsets).
 func vOptions(cfg, skip int, chunkSize int64) *WriterOptions {
@@ -264,7 +266,7 @@ func vOptions(cfg, skip int, chunkSize int64) *WriterOptions {
 		ChunkSize:       chunkSize,
 	}
 	if cfg&4 != 0 {
-		o.Compressor = NewCustomCompressor("xor", &vXorWriter{})
+		o.Compressor = NewCustomCompressor(vXorName(cfg), &vXorWriter{})
 	}
 	if skip >= 1000 {
 		// skip-1000 is the mask of flags that are symbolic; the others are off
@@ -305,9 +307,18 @@ func vOptions(cfg, skip int, chunkSize int64) *WriterOptions {
 	return o
 }
 
+// vXorName: the compression name of the harness codec; cfg bit 32 selects a 22-byte name (longer than the
+// built-in names, still legal: compression is a free-form string).
+func vXorName(cfg int) CompressionFormat {
+	if cfg&32 != 0 {
+		return "xor_long_name_22_bytes"
+	}
+	return "xor"
+}
+
 func vDecompressors(cfg int) map[CompressionFormat]ResettableReader {
 	if cfg&4 != 0 {
-		return map[CompressionFormat]ResettableReader{"xor": &vXorReader{}}
+		return map[CompressionFormat]ResettableReader{vXorName(cfg): &vXorReader{}}
 	}
 	return nil
 }
